@@ -621,6 +621,10 @@ pub fn clip(s: &str, n: usize) -> String {
 
 /* ---------- P-level oracles ---------- */
 
+/// classes listed with status "open" in /verif/known_findings.json (East-Asian wide characters are
+/// counted as one cell; repairing that needs the `unicode-width` crate)
+pub const OPEN_CLASSES: &[&str] = &["C19/wide-char-width"];
+
 pub struct Viol {
     pub class: &'static str,
     pub what: String,
@@ -635,13 +639,13 @@ fn has_control(s: &str) -> bool {
 }
 
 pub fn panic_class(msg: &str) -> &'static str {
-    if msg.contains("printer.rs:278") {
+    if msg.contains("printer.rs:282") {
         "C19/ellipsis-underflow"
     } else if msg.contains("printer.rs:476") {
         "C19/height-underflow"
-    } else if msg.contains("printer.rs:416") || msg.contains("printer.rs:418") || msg.contains("printer.rs:421") || msg.contains("printer.rs:458") {
+    } else if msg.contains("printer.rs:420") || msg.contains("printer.rs:422") || msg.contains("printer.rs:425") || msg.contains("printer.rs:462") {
         "C19/duplicate-column-resize"
-    } else if msg.contains("printer.rs:413") || msg.contains("printer.rs:441") || msg.contains("printer.rs:463") || msg.contains("printer.rs:380") {
+    } else if msg.contains("printer.rs:417") || msg.contains("printer.rs:445") || msg.contains("printer.rs:464") || msg.contains("printer.rs:384") {
         "C19/column-without-width"
     } else {
         "C19/panic-other"
@@ -688,40 +692,32 @@ pub fn judge_aggregate(t: &Table, size: Option<(u16, u16)>, out: &CallOut, width
             v.push(Viol { class: "C19/widths-exceed-terminal", what: format!("column widths sum to {} on a {}-column terminal", sum, w) });
         }
     }
-    // header: every column name, in order, at its column's offset
+    // header: every column name, in order, at its column's offset, cut like a cell when too long
+    let cut = |txt: &str, w: usize| -> String {
+        let n = txt.chars().count();
+        if n <= w {
+            format!("{}{}", txt, " ".repeat(w - n))
+        } else if w < 2 {
+            txt.chars().take(w).collect()
+        } else {
+            format!("{}… ", txt.chars().take(w - 2).collect::<String>())
+        }
+    };
     let mut header = String::new();
     for (c, w) in t.columns.iter().zip(col_w.iter()) {
-        let n = c.chars().count();
-        header.push_str(c);
-        if n < *w {
-            header.push_str(&" ".repeat(w - n));
-        }
+        header.push_str(&cut(c, *w));
     }
-    let h_fits = t.columns.iter().zip(col_w.iter()).all(|(c, w)| c.chars().count() <= *w);
     if !lines.is_empty() && size.map(|s| s.1 >= 2).unwrap_or(true) {
-        if h_fits && lines[0] != header.trim_end() && lines[0] != header.trim() {
-            v.push(Viol { class: "C19/header", what: format!("header {:?} is not the column names at their offsets {:?}", clip(lines[0], 200), clip(header.trim_end(), 200)) });
-        }
-        if !h_fits {
-            // names are expected to be cut like cells; the code pads only
-            let mut pos = 0usize;
-            let hl: Vec<char> = lines[0].chars().collect();
-            let mut ok = true;
-            for (c, w) in t.columns.iter().zip(col_w.iter()) {
-                let cell: String = hl.iter().skip(pos).take(*w).collect();
-                let name: String = c.chars().take(*w).collect();
-                if !(cell.trim_end() == name.trim_end() || (cell.ends_with("… ") && name.starts_with(cell.trim_end_matches("… ")))) {
-                    ok = false;
-                }
-                pos += *w;
-            }
-            if !ok {
-                v.push(Viol { class: "C19/header-not-truncated", what: format!("a column name longer than its column is printed in full, shifting the later names: {:?}", clip(lines[0], 200)) });
-            }
+        let want = header.trim_end_matches(|c: char| c.is_whitespace());
+        if lines[0] != want {
+            let class = if lines[0].chars().count() > want.chars().count() { "C19/header-not-truncated" } else { "C19/header" };
+            v.push(Viol { class, what: format!("header {:?} is not the column names at their offsets {:?}", clip(lines[0], 200), clip(want, 200)) });
         }
     }
-    if lines.len() >= 2 && !(lines[1].chars().all(|c| c == '-') && !lines[1].is_empty()) {
-        v.push(Viol { class: "C19/separator", what: format!("second line is not a separator: {:?}", clip(lines[1], 120)) });
+    // separator: dashes, as long as the table is wide (the sum of the column widths)
+    if lines.len() >= 2 && !(lines[1].chars().all(|c| c == '-') && lines[1].chars().count() == col_w.iter().sum::<usize>()) {
+        let class = if lines[1].chars().all(|c| c == '-') { "C19/separator-byte-length" } else { "C19/separator" };
+        v.push(Viol { class, what: format!("second line is not a separator of {} dashes: {:?}", col_w.iter().sum::<usize>(), clip(lines[1], 120)) });
     }
     // body: each cell at its offset, in full when it fits, else cut to width-2 + "… "
     for (ri, row) in t.rows.iter().enumerate() {
@@ -738,9 +734,15 @@ pub fn judge_aggregate(t: &Table, size: Option<(u16, u16)>, out: &CallOut, width
                 expect.push_str(&txt);
                 expect.push_str(&" ".repeat(w - n));
             } else {
-                let keep: String = txt.chars().take(w.saturating_sub(2)).collect();
-                expect.push_str(&keep);
-                expect.push_str("… ");
+                if *w < 2 {
+                    // no room for the ellipsis: cut to the column
+                    let keep: String = txt.chars().take(*w).collect();
+                    expect.push_str(&keep);
+                } else {
+                    let keep: String = txt.chars().take(w - 2).collect();
+                    expect.push_str(&keep);
+                    expect.push_str("… ");
+                }
             }
         }
         let want = expect.trim_end_matches(|c: char| c.is_whitespace());
@@ -1005,6 +1007,14 @@ fn fixed_cases() -> Vec<Case> {
             calls: vec![Call::Agg(Table { columns: cols(&["k", "_count"]), rows: vec![row(&[("k", s("")), ("_count", Value::Int(7))]), row(&[("k", s("a")), ("_count", Value::Int(3))])] })],
             judge: true,
         },
+        // witness of the open finding C19/wide-char-width: 12 wide characters are 24 cells on a 20-column terminal
+        Case {
+            family: "fixed",
+            size: Some((20, 10)),
+            bufs: (4, 8),
+            calls: vec![Call::Agg(Table { columns: cols(&["k"]), rows: vec![row(&[("k", s("日本語日本語日本語日本語"))])] })],
+            judge: true,
+        },
         // witness: multi-byte column name makes the separator longer than the table
         Case {
             family: "fixed",
@@ -1065,7 +1075,9 @@ fn run_case(ctx: &mut Ctx, idx: usize, case: &Case) {
         return;
     }
     if let Some(v) = viols.into_iter().next() {
-        ctx.case(case.family, &key, "viol", serde_json::json!({"class": v.class, "what": v.what, "case": info}));
+        // reproduced witnesses of findings listed as open in /verif/known_findings.json
+        let verdict = if OPEN_CLASSES.contains(&v.class) { "known" } else { "viol" };
+        ctx.case(case.family, &key, verdict, serde_json::json!({"class": v.class, "what": v.what, "case": info}));
         return;
     }
     ctx.case(case.family, &key, "pass", serde_json::json!({"size": case.size, "calls": case.calls.len(),
@@ -1084,6 +1096,8 @@ pub fn check(ctx: &mut Ctx) {
             let n = inp.chars().count();
             let want: Option<String> = if n <= limit {
                 Some(format!("{}{}", inp, " ".repeat(limit - n)))
+            } else if limit < 2 {
+                Some(inp.chars().take(limit).collect())
             } else {
                 Some(format!("{}… ", inp.chars().take(limit.saturating_sub(2)).collect::<String>()))
             };
